@@ -29,6 +29,16 @@ pub fn o_hash(input: &[u8], p: &P) -> Out {
 			let cut = (p.n[2].max(0) as usize).min(input.len());
 			let _ = read_slp_from(std::io::Cursor::new(&input[..cut]), p.skip, true);
 		}
+		if p.n[0] == 3 {
+			// the debug option (dump every event to a directory) next to the hash option: it must not switch
+			// hashing on or off, nor change the value
+			let g = read_slp_debug(input, p.skip, p.hash).map_err(|f| e(&format!("read-failed:{}", f.key()), format!("reading with the debug option failed: {}", f.describe())))?;
+			let want = if p.hash { Some(expected_hash(&input[..rg.consumed])) } else { None };
+			if g.hash != want {
+				return Err(e("hash-with-debug-option", format!("with the debug option set and compute_hash={} the hash is {:?}, expected {:?}", p.hash, g.hash, want)));
+			}
+			return Ok(3);
+		}
 		let mut rd = EnvReader::new(input, sched_of(p));
 		let g = read_slp_from(&mut rd, p.skip, p.hash);
 		if let (Sched::FailAt(_, std::io::ErrorKind::Interrupted), Err(Fail::Err(_))) = (sched_of(p), &g) {
@@ -131,7 +141,7 @@ pub fn schedules(bytes: &[u8], skip: bool, hash: bool, two_dev: bool) -> Vec<Sch
 
 pub fn run() {
 	let cx = ctx();
-	cx.note("rule", json!("8 replays (all regimes; gecko, doubled end, no metadata, two without any frame) x read schedules of an environment-owned reader: full reads, fixed chunk sizes 1..16/32/../4096, EVERY two-piece split (one short read at every byte offset), every single short read (1,2,3 bytes) at every read-call index, one interrupted read call (ErrorKind::Interrupted, then the call is repeated) at every read-call index, and (thorough) every pair of short reads; x skip_frames {off,on}; plus 1..64 trailing bytes after the closing brace; plus 600 .. 140,000 bytes of unknown events after Game End inside the raw element; plus hash not requested; plus call histories (a hashed read of the file cut at every 8th offset, which gives up part-way, then the whole file on the same thread); plus .slpp carry-through for 3 compressions. Oracle: hash == \"xxh3:\" + 16 hex digits of the ONE-SHOT xxh3_64 over the bytes through the closing brace (a different code path from the streaming hasher), identical for all schedules and both skip settings. Every case is non-trivial (a distinct schedule)"));
+	cx.note("rule", json!("8 replays (all regimes; gecko, doubled end, no metadata, two without any frame) x read schedules of an environment-owned reader: full reads, fixed chunk sizes 1..16/32/../4096, EVERY two-piece split (one short read at every byte offset), every single short read (1,2,3 bytes) at every read-call index, one interrupted read call (ErrorKind::Interrupted, then the call is repeated) at every read-call index, and (thorough) every pair of short reads; x skip_frames {off,on}; plus 1..64 trailing bytes after the closing brace; plus 600 .. 140,000 bytes of unknown events after Game End inside the raw element; plus hash not requested; plus the debug option set (hash off and on); plus call histories (a hashed read of the file cut at every 8th offset, which gives up part-way, then the whole file on the same thread); plus .slpp carry-through for 3 compressions. Oracle: hash == \"xxh3:\" + 16 hex digits of the ONE-SHOT xxh3_64 over the bytes through the closing brace (a different code path from the streaming hasher), identical for all schedules and both skip settings. Every case is non-trivial (a distinct schedule)"));
 	cx.note("exhaustive", json!(true));
 	cx.note("assumptions", json!(["xxhash-rust's one-shot xxh3_64 is the reference (trusted base)", "short reads hand out at least one byte (a zero-length read means EOF)"]));
 	let mut jobs: Vec<(Arc<Vec<u8>>, String, P)> = vec![];
@@ -167,6 +177,15 @@ pub fn run() {
 				p.n[0] = 2;
 				p.n[2] = cut as i64;
 				jobs.push((bytes.clone(), format!("{} after a hashed read of its first {} bytes", label, cut), p));
+			}
+			// the debug option next to the hash option (small replays only: it writes a file per event)
+			if bytes.len() < 3000 {
+				for hash in [false, true] {
+					let mut p = P { skip, hash, class: "debug-option", ..Default::default() };
+					set_sched(&mut p, &Sched::Full);
+					p.n[0] = 3;
+					jobs.push((bytes.clone(), format!("{} with the debug option", label), p));
+				}
 			}
 			// .slpp carry-through
 			if !skip {
